@@ -95,7 +95,7 @@ def register(T, repo):
                     t.fields['pos_fix'], zint(t.fields['pos']),
                     zint(t.fields['pos']) + k))))
     lp.body_post.append(('exact-map', body_map))
-    T.empty_hints[(U + 'get_txt_pos', 56)] = 'ilist'
+    T.empty_hints[(U + 'get_txt_pos', 'pos')] = 'ilist'
 
     # -------------------------------------------------------- latex_error
     def le_result(A):
@@ -253,7 +253,7 @@ def register(T, repo):
                     d['expr'] = e
                     yield d
     c.replay_candidates = sub_candidates
-    T.empty_hints[(U + 'substitute', 93)] = 'ilist'
+    T.empty_hints[(U + 'substitute', 'o_pos')] = 'ilist'
 
 
     # ----------------------------------------------------- filter_set_toks
